@@ -248,7 +248,7 @@ static bool build_targeted(Rng &r, const Plan &plan, const Solo &solo, Schedule 
             const OpResult &sr = solo.res[t][o];
             if (!sr.nev) continue;
             int w = 1;
-            if (!sr.footprint.empty()) w += 6;
+            if (!sr.footprint.empty() || sr.libc_static) w += 6;
             // another task runs the same function / family: a shared object would be shared with it
             for (size_t t2 = 0; t2 < plan.tasks.size(); t2++)
                 if (t2 != t)
@@ -428,6 +428,23 @@ int c12_batch(const Args &a) {
                 st.faults_alloc += r.nfailed;
                 st.faults_wr += r.wr_faults;
                 st.faults_rd += r.rd_faults;
+                for (int lb = 0; lb < 8; lb++) {
+                    if (!(r.libc_static & (1u << lb))) continue;
+                    std::string key = std::string("libc-static:") + g_fn[op.fn].name + ":" + g_libc_static_names[lb];
+                    uint64_t &cnt = st.viol_count[key];
+                    if (cnt++ >= (uint64_t)per_key_cap) continue;
+                    Plan p1;
+                    p1.locale = plan.locale;
+                    p1.tasks.push_back(plan.tasks[t]);
+                    p1.tasks[0].ops.resize(o + 1);
+                    p1.tasks[0].ops.erase(p1.tasks[0].ops.begin(), p1.tasks[0].ops.begin() + o);
+                    Schedule none;
+                    std::string path = write_replay("C12", "libc-static", key, a.seed, i, p1, none, std::string("function ") + g_fn[op.fn].name + "\n");
+                    st.viol_replay[key] = path;
+                    emit_violation(st, "libc-static", key, path, i,
+                                   std::string(g_fn[op.fn].name) + " goes through libc's " + g_libc_static_names[lb] +
+                                       ", whose result / continuation state lives in static storage shared by all threads");
+                }
                 if (r.footprint.empty()) continue;
                 st.footprint_ops++;
                 for (int k : r.footprint) {
@@ -638,6 +655,20 @@ int c12_replay(const std::string &path) {
                 for (int k : r.footprint)
                     if ("footprint:" + g_lib.sym_key(k) == key) {
                         printf("REPRODUCED property=C12 class=footprint key=%s\n", key.c_str());
+                        return 1;
+                    }
+        printf("NOT-REPRODUCED property=C12 key=%s\n", key.c_str());
+        return 0;
+    }
+    if (cls == "libc-static") {
+        Solo s;
+        run_solo(plan, s);
+        for (size_t t = 0; t < s.res.size(); t++)
+            for (size_t o = 0; o < s.res[t].size(); o++)
+                for (int lb = 0; lb < 8; lb++)
+                    if ((s.res[t][o].libc_static & (1u << lb)) &&
+                        std::string("libc-static:") + g_fn[plan.tasks[t].ops[o].fn].name + ":" + g_libc_static_names[lb] == key) {
+                        printf("REPRODUCED property=C12 class=libc-static key=%s\n", key.c_str());
                         return 1;
                     }
         printf("NOT-REPRODUCED property=C12 key=%s\n", key.c_str());
